@@ -256,9 +256,15 @@ def run(repo, rep, tier):  # noqa: F811 -- round-5 shape rules appended to the r
     if getattr(rep, "borrowed", False):
         return
     from ..core import round5 as _r5
+    from ..core.report import Only as _O5
+    from ..core import helper_contracts as _hcb
+    _hcb.report(repo, rep, "R17.8", _hcb.add_type_modules_contract(repo), "mashumaro.core.meta.code.builder::CodeBuilder.add_type_modules")
     _r5.namedtuple_field_names_quoted(repo, rep, "R16.6")
 
 
 _ADDR5B = ' R16.6: in pack_named_tuple / unpack_named_tuple a field name from `_fields` reaches generated text only as a quoted key, never in identifier position (functional-API names are not NFKC-normalised, source identifiers are). This narrows assumption A-ident for named tuples.'
 EXPLANATION += _ADDR5B
 LEVEL_TEXT += _ADDR5B
+_ADDR5D = ' Borrowed: R17.8 (add_type_modules only registers modules; it never evaluates strings it meets among Literal values).'
+EXPLANATION += _ADDR5D
+LEVEL_TEXT += _ADDR5D
